@@ -204,6 +204,7 @@ func (vm *VM) exec(pc bytecode, vars []Variable, cont Cont, args []Term, astack 
 	)
 	for ok {
 		op, pc = pc[0], pc[1:]
+		verifOp(op.opcode)
 		switch opcode, operand := op.opcode, op.operand; opcode {
 		case opGetConst:
 			arg, args = args[0], args[1:]
